@@ -270,7 +270,11 @@ class Gen:
             k = self.present_key()
             # same hash, fresh hash (never the hash of another leaf: that is class F-C18-2)
             h = self.m[k][1] if r.chance(1, 4) else self.fresh_hash()
-            return self.push(("u", k, self.val(), h))
+            # same value id with a new hash (and the reverse) are distinct code paths of upsert
+            v = self.m[k][0] if r.chance(1, 3) else self.val()
+            if r.chance(1, 3):
+                self.push(("h",))          # clean hashes first: the upsert must mark the lineage dirty again
+            return self.push(("u", k, v, h))
         k = self.fresh_key()
         if k is None:
             return False
@@ -407,6 +411,9 @@ HAND = [
     [("i", 9, 9, b"\x09" * 32, ("a",)), ("i", 8, 8, b"\x08" * 32, ("a",)), ("b", [(1, 1, b"\x01" * 32), (2, 2, b"\x02" * 32), (3, 3, b"\x03" * 32)]), ("h",), ("d", 9), ("d", 8), ("h",)],
     # upsert: same hash, new hash, root leaf, after hashing (dirty propagation)
     [("i", 1, 1, b"\x01" * 32, ("a",)), ("u", 1, 5, b"\x01" * 32), ("u", 1, 6, b"\x02" * 32), ("h",)],
+    # upsert with the SAME value id and a new hash on clean hashes (root must be recomputed), 2 and 4 leaves, after a delete
+    [("i", 1, 1, b"\x01" * 32, ("a",)), ("i", 2, 2, b"\x02" * 32, ("a",)), ("h",), ("u", 1, 1, b"\x11" * 32), ("h",), ("u", 2, 2, b"\x22" * 32), ("h",)],
+    [("b", [(k, k, bytes([k]) * 32) for k in range(1, 5)]), ("h",), ("d", 2), ("h",), ("u", 3, 7, b"\x73" * 32), ("h",), ("u", 3, 7, b"\x74" * 32), ("h",), ("u", 4, 4, b"\x44" * 32), ("h",)],
     [("b", [(k, k, bytes([k]) * 32) for k in range(1, 8)]), ("h",), ("u", 3, 99, b"\x63" * 32), ("h",), ("u", 3, 98, b"\x63" * 32), ("d", 5), ("h",)],
 ]
 
@@ -417,6 +424,13 @@ KNOWN_HAND = [
     ("batch-duplicate", [("i", 7, 7, b"\x07" * 32, ("a",)), ("i", 8, 8, b"\x08" * 32, ("a",)), ("i", 9, 9, b"\x09" * 32, ("a",)), ("b", [(7, 1, b"\x01" * 32)])]),
     ("upsert-hash-of-other-leaf", [("i", 1, 1, b"\x01" * 32, ("a",)), ("i", 2, 2, b"\x02" * 32, ("a",)), ("i", 3, 3, b"\x03" * 32, ("a",)), ("u", 1, 5, b"\x02" * 32)]),
     ("insert-at-stale-index", [("i", 1, 1, b"\x01" * 32, ("a",)), ("i", 2, 2, b"\x02" * 32, ("a",)), ("d", 2), ("i", 3, 3, b"\x03" * 32, ("x", 2, 0))]),
+    # a freed block that still names a key which is live again in another block (delete A, delete K, re-insert K)
+    ("insert-at-stale-index?", [("i", 1, 1, b"\x01" * 32, ("a",)), ("i", 2, 2, b"\x02" * 32, ("a",)), ("i", 3, 3, b"\x03" * 32, ("a",)),
+                                ("i", 4, 4, b"\x04" * 32, ("a",)), ("d", 2), ("d", 3), ("i", 3, 33, b"\x33" * 32, ("a",)),
+                                ("i", 9, 9, b"\x09" * 32, ("x", "?", 0))]),
+    ("insert-at-stale-index?", [("i", 1, 1, b"\x01" * 32, ("a",)), ("i", 2, 2, b"\x02" * 32, ("a",)), ("i", 3, 3, b"\x03" * 32, ("a",)),
+                                ("d", 1), ("d", 3), ("i", 3, 33, b"\x33" * 32, ("a",)), ("i", 1, 11, b"\x11" * 32, ("a",)), ("d", 2),
+                                ("i", 9, 9, b"\x09" * 32, ("x", "?", 1))]),
 ]
 
 
@@ -476,9 +490,17 @@ def gen_known(rng, tier):
             # raw-index insert after deletes: the index is classified after running the prefix
             if not g.m:
                 continue
-            for _ in range(1 + r.below(2)):
+            deleted = []
+            for _ in range(1 + r.below(3)):
                 if len(g.m) > 1:
+                    before = set(g.m)
                     g.delete()
+                    deleted += sorted(before - set(g.m))
+            # re-insert some deleted keys: they land in earlier freed blocks (FIFO free list), so a later freed block
+            # still holds the bytes of a key that is LIVE elsewhere (a stale block naming a live key)
+            for dk in deleted:
+                if r.chance(2, 3) and dk not in g.m:
+                    g.push(("i", dk, g.val(), g.fresh_hash(), ("a",)))
             k = g.fresh_key()
             if k is None:
                 continue
@@ -563,8 +585,12 @@ def run(ctx):
             if not stale:
                 continue
             op = ops[-1]
-            idx = stale[rng.below(len(stale))]
-            hists.append(("former-known", ops[:-1] + [("i", op[1], op[2], op[3], ("x", idx, op[4][2])), ("h",)]))
+            # every stale block (up to 4): one of them may hold the bytes of a key that is live elsewhere
+            pick = list(stale)
+            while len(pick) > 4:
+                pick.pop(rng.below(len(pick)))
+            for idx in pick:
+                hists.append(("former-known", ops[:-1] + [("i", op[1], op[2], op[3], ("x", idx, op[4][2])), ("h",)]))
 
     hl = [line_of("dl.hist", ops) for _, ops in hists]
     ol = [line_of("dl.oracle", ops) for _, ops in hists]
